@@ -152,7 +152,12 @@ fn run_one(prog: Vec<UnOptCode>, stdin: &str, max: usize) -> String {
         }
         out.flush().unwrap();
         err.flush().unwrap();
-        println!("T {} {}", loc, enc_state(&mut state));
+        let st = enc_state(&mut state);
+        if st.len() > 20000 {
+            // the values have exploded: the trace is cut here (same rule in the model driver)
+            return "cut".to_string();
+        }
+        println!("T {} {}", loc, st);
         steps += 1;
     }
     "ok".to_string()
